@@ -285,3 +285,22 @@ Definition node_for_atomic : bool :=
 
 Definition node_identity_ok : bool :=
   spairs_eqb node_fields expected_node_fields && spairs_eqb node_allocs expected_node_allocs && node_for_atomic.
+
+(** ** C16: reference counts of fidRefs reached through the path tree.  A fidRef stays registered in its parent's
+    [childRefs] until its destructor (count reached 0: File.Close, then removeChild) has finished, and no lock
+    covers that window (Tclunk takes no rename lock).  So a fidRef found by ranging over [childRefs] (rename and
+    unlink notifications) may be dying: it may only be acquired with TryIncRef — an unconditional IncRef would
+    resurrect it (0 -> 1), call Renamed on a File being closed and run the destructor a second time.
+    Every other IncRef in the server is made by a holder of a reference (fid table entry under fidMu, the
+    request's own lookup, a fidRef under construction). *)
+Definition ref_ok (st : site) : bool :=
+  match s_kind st with
+  | KRef op weak => negb weak || String.eqb op "TryIncRef"
+  | _ => true
+  end.
+Definition is_weak_try (st : site) : bool := match s_kind st with KRef "TryIncRef" true => true | _ => false end.
+(** non-vacuity, without naming functions: two different places acquire weak references (the rename callback
+    and the notification below a renamed directory), and ordinary IncRefs are in the table as well *)
+Definition weak_refs_seen : bool :=
+  existsb (fun a => is_weak_try a && existsb (fun b => is_weak_try b && negb (String.eqb (s_pos a) (s_pos b))) sites) sites &&
+  existsb (fun st => match s_kind st with KRef "IncRef" false => true | _ => false end) sites.
